@@ -55,6 +55,7 @@ type c9Version struct {
 	capInv      map[string]bool // key thumbprints
 	controllers []string
 	deactivated bool
+	at          time.Time // signing time of its transaction
 }
 
 type c9DID struct {
@@ -149,7 +150,7 @@ func c09Body(s *simkit.Sim, rc *simkit.RunCtx) {
 			s.Fail("C09.harness", "create", "honest creation rejected by the DAG: %v", err)
 			return nil
 		}
-		d.versions = append(d.versions, &c9Version{doc: doc, payload: payload, tx: t, capInv: map[string]bool{k.thumb: true}})
+		d.versions = append(d.versions, &c9Version{doc: doc, payload: payload, tx: t, capInv: map[string]bool{k.thumb: true}, at: time.Now()})
 		dids[name] = d
 		order = append(order, name)
 		return d
@@ -241,6 +242,7 @@ func c09Body(s *simkit.Sim, rc *simkit.RunCtx) {
 	svcN := 0
 	nev := 5 + s.D.Decide("events", 10)
 	for k := 0; k < nev && !s.Failed(); k++ {
+		s.Advance(time.Duration(2+s.D.Decide("gap-s", 120)) * time.Second) // versions have distinct times
 		target := dids[order[s.D.Decide("target", len(order))]]
 		cur := target.latest()
 		if cur.deactivated {
@@ -252,29 +254,41 @@ func c09Body(s *simkit.Sim, rc *simkit.RunCtx) {
 			authThumbs = append(authThumbs, t)
 		}
 		sort.Strings(authThumbs)
-		if len(authThumbs) == 0 {
-			continue
-		}
+		// a document nobody is authorised to change any more (its controller was deactivated) still attracts attacks
+		orphaned := len(authThumbs) == 0
 		// the next document: the current one, changed
 		var next did.Document
 		_ = json.Unmarshal(cur.payload, &next)
 		svcN++
 		next.Service = append(next.Service, did.Service{ID: ssi.MustParseURI(fmt.Sprintf("%s#svc%d", target.id, svcN)), Type: fmt.Sprintf("type%d", svcN), ServiceEndpoint: fmt.Sprintf("https://e%d.sim", svcN)})
-		nv := &c9Version{capInv: map[string]bool{}, controllers: append([]string(nil), cur.controllers...)}
+		nv := &c9Version{capInv: map[string]bool{}, controllers: append([]string(nil), cur.controllers...), at: time.Now()}
 		for t := range cur.capInv {
 			nv.capInv[t] = true
 		}
 		kinds := []string{"honest-service", "honest-service", "honest-add-key", "honest-remove-old-key", "honest-set-controller", "honest-drop-controller", "honest-deactivate", "honest-new-did",
-			"attack-foreign-create", "attack-non-controller-key", "attack-own-key-of-controlled-document", "attack-invalid-key-id-kid-in-jwk", "attack-assertion-only-key", "attack-removed-key", "attack-deactivated-controller-key",
+			"attack-foreign-create", "attack-non-controller-key", "attack-own-key-of-controlled-document", "attack-invalid-key-id-kid-in-jwk",
+			"honest-demote-key", "honest-demote-key", "honest-deactivate-keeping-key", "attack-demoted-controller-key-backdated", "attack-demoted-controller-key-backdated", "attack-deactivated-controller-key-by-deactivation", "attack-assertion-only-key", "attack-removed-key", "attack-deactivated-controller-key",
 			"attack-invalid-id-prefix", "attack-invalid-duplicate-id", "attack-invalid-key-id", "attack-invalid-two-services-one-type", "attack-invalid-foreign-vm-controller"}
 		kind := kinds[s.D.Decide("kind", len(kinds))]
-		signer := keyByThumb(authThumbs[s.D.Decide("signer", len(authThumbs))])
-		if signer == nil {
-			continue
+		var signer *c9Key
+		var signerDID *c9DID
+		if orphaned {
+			// only the attacks that bring their own signer
+			switch kind {
+			case "attack-deactivated-controller-key", "attack-deactivated-controller-key-by-deactivation", "attack-removed-key", "attack-non-controller-key":
+			default:
+				continue
+			}
+		} else {
+			signer = keyByThumb(authThumbs[s.D.Decide("signer", len(authThumbs))])
+			if signer == nil {
+				continue
+			}
+			signerDID = auth[signer.thumb]
 		}
-		signerDID := auth[signer.thumb]
 		valid := true
 		expectAuthorised := true
+		var backdate time.Time // signing time of the offered transaction, if not now
 		switch kind {
 		case "honest-service":
 		case "honest-add-key":
@@ -452,6 +466,100 @@ func c09Body(s *simkit.Sim, rc *simkit.RunCtx) {
 			}
 			signer, signerDID = removed, target
 			expectAuthorised = false
+		case "honest-demote-key":
+			// a key loses the capabilityInvocation relationship but stays in the document as an assertion key
+			if len(cur.capInv) < 2 {
+				continue
+			}
+			var ts []string
+			for t := range cur.capInv {
+				ts = append(ts, t)
+			}
+			sort.Strings(ts)
+			rm := ts[0]
+			if rm == signer.thumb && signerDID == target {
+				rm = ts[1]
+			}
+			rmID := did.DIDURL{DID: target.id, Fragment: rm}
+			vm := next.VerificationMethod.FindByID(rmID)
+			if vm == nil {
+				continue
+			}
+			next.CapabilityInvocation.Remove(rmID)
+			if next.AssertionMethod.FindByID(rmID) == nil {
+				next.AddAssertionMethod(vm)
+			}
+			delete(nv.capInv, rm)
+		case "honest-deactivate-keeping-key":
+			// deactivated (no controller, no capabilityInvocation key) by a document that keeps its keys for assertions
+			if s.D.Decide("really-deactivate", 3) != 0 || len(cur.controllers) > 0 {
+				continue
+			}
+			kept := didnuts.CreateDocument()
+			kept.ID = target.id
+			for _, vm := range next.VerificationMethod {
+				kept.AddAssertionMethod(vm)
+			}
+			next = kept
+			nv.deactivated = true
+			nv.capInv = map[string]bool{}
+			nv.controllers = nil
+		case "attack-demoted-controller-key-backdated":
+			// The controller demoted a key (it is still in its document, for assertions). An update of the controlled document
+			// signed with that key, referring to the controller's present version and dated back to when the key still had
+			// the capabilityInvocation relationship, is not authorised: the referred version decides.
+			if len(cur.controllers) == 0 {
+				continue
+			}
+			var ctrl *c9DID
+			for _, n := range order {
+				if dids[n].id.String() == cur.controllers[0] {
+					ctrl = dids[n]
+				}
+			}
+			if ctrl == nil || ctrl.latest().deactivated {
+				continue
+			}
+			var old *c9Version
+			var oldKey string
+			for _, v := range ctrl.versions[:len(ctrl.versions)-1] {
+				for t := range v.capInv {
+					if !ctrl.latest().capInv[t] && ctrl.latest().doc.VerificationMethod.FindByID(did.DIDURL{DID: ctrl.id, Fragment: t}) != nil {
+						old, oldKey = v, t
+					}
+				}
+			}
+			if old == nil {
+				continue
+			}
+			signer, signerDID = keyByThumb(oldKey), ctrl
+			expectAuthorised = false
+			backdate = old.at.Add(time.Second)
+		case "attack-deactivated-controller-key-by-deactivation":
+			// the controller was deactivated by a document that keeps its key; the update refers to that deactivating version
+			var dead *c9DID
+			for _, n := range order {
+				if o := dids[n]; o != target && o.latest().deactivated && len(o.versions) > 1 && len(o.latest().doc.VerificationMethod) > 0 {
+					if dead == nil || (len(cur.controllers) > 0 && cur.controllers[0] == o.id.String()) {
+						dead = o // preferably the target's own (former) controller
+					}
+				}
+			}
+			if dead == nil {
+				continue
+			}
+			prev := dead.versions[len(dead.versions)-2]
+			var k string
+			for t := range prev.capInv {
+				if dead.latest().doc.VerificationMethod.FindByID(did.DIDURL{DID: dead.id, Fragment: t}) != nil {
+					k = t
+				}
+			}
+			signer, signerDID = keyByThumb(k), dead
+			if signer == nil {
+				continue
+			}
+			expectAuthorised = false
 		case "attack-deactivated-controller-key":
 			var dead *c9DID
 			for _, n := range order {
@@ -502,7 +610,11 @@ func c09Body(s *simkit.Sim, rc *simkit.RunCtx) {
 			signerTx = signerDID.versions[len(signerDID.versions)-2].tx
 		}
 		before := observe(target)
+		if !backdate.IsZero() {
+			corpus.Now = func() time.Time { return backdate }
+		}
 		t, addErr := offer(payload, signer, kid, cur.tx, signerTx)
+		corpus.Now = time.Now
 		ok := expectAuthorised && valid
 		sample.Events = append(sample.Events, fmt.Sprintf("%s on %s by %s key -> dag:%v", kind, target.name, signerDID.name, addErr == nil))
 		s.Info.Inc(kind)
@@ -513,6 +625,19 @@ func c09Body(s *simkit.Sim, rc *simkit.RunCtx) {
 			}
 			nv.doc, nv.payload, nv.tx = next, payload, t
 			target.versions = append(target.versions, nv)
+		}
+		if kind == "attack-deactivated-controller-key" && len(cur.controllers) > 0 && cur.controllers[0] == signerDID.id.String() {
+			// The update refers to the version of the target's controller from before that controller's deactivation, in which
+			// the key is a capabilityInvocation key. The rule speaks of "a controller of the version it succeeds" as the
+			// transaction refers to it - an update made without knowledge of the later deactivation is of this shape too - so
+			// this one is observed, not judged. (Referring to the deactivating version itself is judged: see the -by-deactivation attack.)
+			after := observe(target)
+			if after.hash != before.hash {
+				s.Info.Inc("update-referring-to-controller-version-before-its-deactivation-accepted")
+				nv.doc, nv.payload, nv.tx = next, payload, t
+				target.versions = append(target.versions, nv)
+			}
+			continue
 		}
 		if kind == "attack-invalid-foreign-vm-controller" {
 			// whether a verification method may name another controller is not among the rules the property lists as mandatory: observe only
